@@ -49,7 +49,8 @@ def _work(job):
         for v in viols:
             v = dict(v)
             try:
-                _, found = ex.run_path(scn, cfg, mons, v["history"])
+                prior = [v["pair"]] if v.get("pair") else None
+                _, found = ex.run_path(scn, cfg, mons, v["history"], prior=prior)
             except HarnessError as e:
                 v["confirmed"] = False
                 v["confirm_error"] = str(e)
@@ -107,6 +108,7 @@ def write_replay(v):
         "scenario": v["scenario"],
         "cfg": v.get("cfg"),
         "history": v["history"],
+        "pair": v.get("pair"),
         "monitors": v.get("monitors"),
     }
     text = json.dumps(body, indent=1, sort_keys=True, default=repr)
